@@ -385,6 +385,41 @@ def own_flush_rule(ctx, P):
                        '%s = flush_send_id + 1 on every path' % x0['name'] if (not stale and defs) else
                        'on some path the ticket is %s: the caller waits for a flush that was requested before its own messages' % (stale or ['undefined'])[0])
     ctx.floor('ticket compares in jls_twr_flush', n, 1)
+    # tickets are never handed out twice: the send counter only grows (a counter that is taken back after another caller
+    # took the next ticket makes a later flush reuse a ticket that was already processed)
+    nst = 0
+    for fn in P.fns_in('src/threaded_writer.c'):
+        for ev in fn.stores():
+            lhs, rhs, o = ev.store_parts()
+            l0 = strip_casts(lhs)
+            if ev.k != 'store' or l0.get('op') != 'member' or l0.get('field') != 'flush_send_id':
+                continue
+            nst += 1
+            r0 = strip_casts(rhs) if rhs is not None else None
+            grows = False
+            if rhs is None:
+                grows = '++' in o
+            elif o == '+=':
+                grows = (const_of(r0) or 0) > 0
+            elif o == '=':
+                if const_of(r0) == 0:
+                    grows = True            # initialisation of a fresh object
+                elif r0.get('op') == 'ref':
+                    # a local defined as counter + 1
+                    ds = [d for d in fn.events() if (d.k == 'decl' and d.name == r0['name'] and d.e is not None) or
+                          (d.k == 'store' and strip_casts(d.store_parts()[0]).get('name') == r0['name'])]
+                    ds = list({id(d): d for d in ds}.values())
+                    def plus_one(e):
+                        e = strip_casts(e) if e is not None else {}
+                        return e.get('op') == 'bin' and e['o'] == '+' and any(m.get('op') == 'member' and m.get('field') == 'flush_send_id' for m in walk(e)) and \
+                            any((const_of(k_) or 0) > 0 for k_ in e['k'])
+                    grows = bool(ds) and all(plus_one(d.e if d.k == 'decl' else d.store_parts()[1]) for d in ds)
+                elif r0.get('op') == 'bin' and r0['o'] == '+':
+                    grows = any(m.get('op') == 'member' and m.get('field') == 'flush_send_id' for m in walk(r0)) and any((const_of(k_) or 0) > 0 for k_ in r0['k'])
+            ctx.ob('C07.11', grows, fn.name, 'the flush send counter only grows', ev.where(),
+                   'initialised to 0 / advanced by one' if grows else
+                   'the counter is lowered (%s): when another caller has taken the next ticket in between, the following flush is handed a ticket that was already processed and returns at once, before the messages submitted ahead of it are applied' % show(ev.e)[:40])
+    ctx.floor('stores to the flush send counter', nst, 2)
 
 
 
